@@ -136,6 +136,8 @@ func runC13(p *Prog, r *Result) {
 	checkRuneErrorWidth(p, r, "R13g")
 	r.Rule("R13h", "every non-error return of Quote is the string itself, a builder's contents or single quotes around the string; the double-quote fallback's return is only reached through its escaping loop", 5)
 	checkQuoteReturns(p, r, "R13h")
+	r.Rule("R13i", "every word the statement parser dispatches on is quoted by Quote: it holds a character Quote quotes for, or a word predicate negated before the bare return lists it", 25)
+	checkQuoteCoversParserWords(p, r, p.Pkg("syntax"), "R13i")
 
 	fd := p.FuncDecl("syntax", "Quote")
 	if fd == nil || fd.Body == nil {
@@ -554,6 +556,10 @@ func runC13(p *Prog, r *Result) {
 }
 
 var c13Controls = []Control{
+	{Name: "elif-not-a-keyword", Rule: "R13i", WantKey: "the parser's word \"elif\" is quoted", File: "syntax/parser.go",
+		Mutate: ctlReplaceAnywhere("\t\t\"done\",\n\t\t\"elif\",\n", "\t\t\"done\",\n")},
+	{Name: "clause-words-returned-bare", Rule: "R13i", WantKey: "the parser's word \"let\" is quoted", File: "syntax/quote.go",
+		Mutate: ctlReplaceAnywhere("!IsKeyword(s) && !startsClause(s) {", "!IsKeyword(s) {")},
 	{Name: "double-quote-fast-path", Rule: "R13h", WantKey: "syntax.Quote#return", File: "syntax/quote.go",
 		Mutate: ctlReplaceAnywhere("\t// The string contains single quotes,\n\t// so fall back to double quotes.\n", "\tif !strings.ContainsAny(s, \"\\\"$`\") {\n\t\treturn \"\\\"\" + s + \"\\\"\", nil\n\t}\n")},
 	{Name: "runeerror-without-width", Rule: "R13g", WantKey: "with a width test", File: "syntax/quote.go",
